@@ -36,25 +36,24 @@ fn any_balance() -> Balance {
     Balance { total, free }
 }
 
-proof! {
-    #[kani::unwind(26)]
-    fn c09_q_balance_step() {
+/// `tf` maps the symbolic tick 0..3 to an exchange timestamp (whole seconds, or four instants inside ONE millisecond).
+fn balance_step(tf: fn(u8) -> chrono::DateTime<chrono::Utc>) {
         let held: Option<(u8, Balance)> = if any_bool() { let s = any_u8_lt(4); Some((s, any_balance())) } else { None };
-        let first = held.map(|(s, b)| Timed::new(b, time_at(s)));
+        let first = held.map(|(s, b)| Timed::new(b, tf(s)));
         let mut state = AssetState {
             asset: Asset { name_internal: AssetNameInternal::new(SmolStr::new_inline("usdt")), name_exchange: AssetNameExchange::new(SmolStr::new_inline("USDT")) },
             statistics: match &first { Some(t) => TearSheetAssetGenerator::init(t), None => TearSheetAssetGenerator::default() },
             balance: first,
         };
         let s1 = any_u8_lt(4);
-        let message = AssetBalance { asset: AssetIndex(0), balance: any_balance(), time_exchange: time_at(s1) };
+        let message = AssetBalance { asset: AssetIndex(0), balance: any_balance(), time_exchange: tf(s1) };
         state.update_from_balance(Snapshot(&message));
         let now = state.balance.as_ref().expect("C09: balance lost");
         match held {
-            None => assert!(now.time == time_at(s1) && now.value == message.balance, "C09: first balance not held"),
+            None => assert!(now.time == tf(s1) && now.value == message.balance, "C09: first balance not held"),
             Some((s0, b0)) => {
                 let newest = if s1 >= s0 { s1 } else { s0 };
-                assert!(now.time == time_at(newest), "C09: held balance does not carry the greatest delivered exchange timestamp");
+                assert!(now.time == tf(newest), "C09: held balance does not carry the greatest delivered exchange timestamp");
                 let delivered_with_it = (s1 == newest && now.value == message.balance) || (s0 == newest && now.value == b0);
                 assert!(delivered_with_it, "C09: held balance was not delivered with the held timestamp");
                 if s1 < s0 {
@@ -67,7 +66,12 @@ proof! {
         kani::cover!(held.is_some() && s1 > held.unwrap().0, "newer balance");
         core::mem::forget(state);
     }
+fn sub_millisecond(tick: u8) -> chrono::DateTime<chrono::Utc> {
+    time_at(1) + chrono::TimeDelta::microseconds(250 * tick as i64)
 }
+proof! { #[kani::unwind(26)] fn c09_q_balance_step() { balance_step(time_at) } }
+// timestamps that differ by less than a millisecond are still different timestamps
+proof! { #[kani::unwind(26)] fn c09_q_balance_step_sub_millisecond() { balance_step(sub_millisecond) } }
 
 fn any_level() -> Option<Level> {
     if any_bool() { Some(Level { price: dec_pos(3), amount: dec_pos(2) }) } else { None }
